@@ -60,6 +60,53 @@ add(
     "DESIGN.md section 4, C18",
 )
 
+add(
+    "C12",
+    "invariant hooks on every LinearScale mutator (end-point invariant + non-interference over a weak registry of live scales), online affinity monitor on every evaluation, driver-side relational checks",
+    "Seeded static cases and 2-10 step histories of domain/range/clamp/nice/copy on a scale and its copies. At every mutator the "
+    "monitor re-evaluates every live scale object: it must map the end points of the domain it reports to the range it reports (==) and "
+    "no other object's observable signature may change; every evaluation is checked against the exact-rational affine map through the "
+    "reported end points; the driver checks monotonicity, invert round trips and clamping. Held = on the histories played.",
+    "Trusted: oracle arithmetic (fractions.Fraction), tolerances stated in the evidence. Only the default linear interpolator is exercised.",
+    "DESIGN.md section 4, C12",
+)
+add(
+    "C13",
+    "reference tick oracle over results observed at the API boundary (call-counted), seeded stratified domains",
+    "ticks(m)/tickFormat(m) of the real LinearScale on seeded domains under the statement's guard, including spans placed at the "
+    "0.15/0.35/0.75 step thresholds and ends that are exact multiples; judged for 1-2-5 step, multiples, even spacing, in-domain, "
+    "completeness, count bounds, distinct texts that read back. Held = on the domains generated.",
+    "Trusted: oracles/ticks.py; 1e-5-of-a-step tolerances derived from the guard (stated in DESIGN.md).",
+    "DESIGN.md section 4, C13",
+)
+add(
+    "C14",
+    "reference nice oracle over domains/ticks observed before and after nice(); H5/H6/H7 monitors in situ; one known finding keyed by mechanism",
+    "nice(m) of the real LinearScale and TimeScale on seeded domains (linear: C13 generator; time: ms-resolution 1900-2200, 10 ms..200 y, "
+    "calendar edges). Judged: orientation kept, no inward move (beyond 4 ulp of the product k*step), outward move < 2 tick steps, round "
+    "ends (tenth of step / calendar alignment class). Held = on the domains generated; the float-division finding is listed in KNOWN_FINDINGS.txt.",
+    "Trusted: oracles/ticks.py, oracles/calendar.py. Step is measured from observed ticks; cases with <2 ticks are judged partially (counted).",
+    "DESIGN.md section 4, C14",
+)
+add(
+    "C15",
+    "online monitor on every TimeScale evaluation (exact timedelta reference) + driver-side relational checks",
+    "Seeded pairs of distinct naive datetimes and ranges; every __call__/invert is judged online against exact rational proportionality on the "
+    "domain/range the scale reports, and the driver checks end points, proportionality to the given domain, monotonicity, equal durations, "
+    "1 ms round trip inside the domain and agreement with a LinearScale on oracle-computed epoch milliseconds. Held = on the cases generated.",
+    "Trusted: CPython datetime/timedelta arithmetic, fractions. TZ=UTC (C18 covers zones).",
+    "DESIGN.md section 4, C15",
+)
+add(
+    "C16",
+    "reference time-tick oracle over lists observed at the API boundary; tick-method path coverage from the H6 hook; H7 calendar monitor in situ",
+    "ticks(m) of the real TimeScale on seeded domains covering all 18 rows of the interval table, the millisecond path (incl. 1-11 ms spans) "
+    "and the multi-year path, with anchors on month ends, leap days, year ends and Sundays. Judged: totality, strict increase, in-domain, "
+    "calendar alignment implied by the smallest gap, gap ratio <= 2, count bounds / one tick per ms. Run is inconclusive unless every path was observed.",
+    "Trusted: oracles/ticks.py, oracles/calendar.py. TZ=UTC.",
+    "DESIGN.md section 4, C16",
+)
+
 NOT_YET = {}
 
 
